@@ -32,3 +32,18 @@ Proof. reflexivity. Qed.
 Example ex_values : cwv_args (cont_deliver [MObj 0; MObj 7; MObj 0]) = [MObj 0; MObj 7; MObj 0]
                     /\ cwv_args (cont_deliver []) = [] /\ cwv_args (cont_deliver [MObj 5]) = [MObj 5].
 Proof. repeat split. Qed.
+
+(** the multiple-values print mode of the trace correspondence (props/C06.py mv_mode): every call/cc receiver is
+    [(call-with-values (lambda () (call/cc ...)) (lambda vs (apply + vs)))] and a throw of the model's value [v] passes
+    numbers [vs] with sum [v] ((k v 0), (k 0 v 0), (apply k (list v 0)) ...).  Under this model of values the consumer
+    computes exactly [v], for EVERY such list — so an mv script means what the one-value script of the machine means. *)
+Definition obj_num (x : mval) : nat := match x with MObj n => n | MTagged _ => 0 end.
+Definition sum_consumer (args : list mval) : nat := fold_right (fun x acc => obj_num x + acc) 0 args.
+
+Theorem mv_encoding_sound_lemma : forall vs : list nat,
+  sum_consumer (cwv_args (cont_deliver (map MObj vs))) = list_sum vs.
+Proof.
+  intro vs. rewrite values_through_continuation_lemma.
+  - induction vs as [|v r IH]; cbn; [reflexivity|]. unfold sum_consumer in IH. rewrite IH. reflexivity.
+  - intros x H. destruct vs as [|v [|w r]]; cbn in H; try discriminate. injection H as <-. reflexivity.
+Qed.
